@@ -159,3 +159,66 @@ func VP_C13_AfterPanic() {
 	vpObserveBool("first-panicked", p)
 	vpReach("end")
 }
+
+// VP_C13_Scribble: what DNAFrom2Bit and DNATo2Bit return belongs to the
+// caller. Overwriting every byte of earlier results (with arbitrary bytes)
+// does not change what later calls compute: the unpacking of an arbitrary
+// packed string is still the four bases per byte, most significant pair
+// first, and it still packs back to itself.
+func VP_C13_Scribble() {
+	n, m := vpCase("n"), vpCase("m")
+	p := make([]byte, n)
+	for i := range p {
+		p[i] = byte(vpCase("pv") + 37*i) // concrete: the rows of any table behind it are known
+	}
+	var dst []byte
+	if vpCase("pre") == 1 {
+		dst = make([]byte, 0, 64)
+	}
+	txt := DNAFrom2Bit(dst, p)
+	junk := vpBytes("junk", len(txt))
+	copy(txt, junk)
+	s := vpBytes("s", m)
+	for _, b := range s {
+		vpAssume(vpIsACGT(b))
+	}
+	packed := DNATo2Bit(nil, s)
+	junk2 := vpBytes("junk2", len(packed))
+	copy(packed, junk2)
+	// once more, on the same packed string and on fresh inputs
+	p2 := vpBytes("p2", n)
+	for _, q := range [][]byte{p, p2} {
+		var txt2, back []byte
+		pan := vpPanics(func() {
+			txt2 = DNAFrom2Bit(nil, q)
+			back = DNATo2Bit(nil, txt2)
+		})
+		vpAssert(!pan, "unpacked text packs without a panic after earlier results were overwritten")
+		ok := !pan && len(txt2) == 4*len(q)
+		for i := 0; ok && i < len(q); i++ {
+			for k := 0; k < 4; k++ {
+				ok = ok && txt2[4*i+k] == "ACGT"[(q[i]>>(6-2*k))&3]
+			}
+		}
+		vpAssert(ok, "DNAFrom2Bit does not depend on what callers did to earlier results")
+		vpAssert(pan || bytes.Equal(back, q), "DNATo2Bit(DNAFrom2Bit(p)) == p after earlier results were overwritten")
+	}
+	s2 := vpBytes("s2", m)
+	for _, b := range s2 {
+		vpAssume(vpIsACGT(b))
+	}
+	again := DNATo2Bit(nil, s2)
+	ok := len(again) == (m+3)/4
+	for j := 0; ok && j < len(again); j++ {
+		var w byte
+		for q := 0; q < 4; q++ {
+			w <<= 2
+			if 4*j+q < m {
+				w |= vpCode(s2[4*j+q])
+			}
+		}
+		ok = ok && again[j] == w
+	}
+	vpAssert(ok, "DNATo2Bit does not depend on what callers did to earlier results")
+	vpReach("end")
+}
